@@ -1171,15 +1171,12 @@ def run(ck):
             cuts.setdefault(0, "header")
 
             def classify(op, v_, m_, d_):
-                return ("violation", "sdmf-share-%s" % op,
+                return ("violation", "sdmf-share-%s-accepted" % op,
                         "a share whose header announces %d bytes was cut to %d bytes and unpack_share returned fields "
                         "instead of raising NeedMoreDataError; enc_privkey came back as %d bytes instead of %d"
                         % (len(share), len(m_), len(d_[-1]), len(v_[-1])))
             for c, where in sorted(cuts.items()):
-                op = "truncated-inside-%s-accepted" % where
-                r = judge("sdmf-share", op, v, share[:c], ml.unpack_share, encode, classify)
-                if r == "rejected" and where == "enc_privkey":
-                    ck.hit("sdmf-share-truncated-inside-enc_privkey-rejected")
+                judge("sdmf-share", "truncated-inside-%s" % where, v, share[:c], ml.unpack_share, encode, classify)
                 ck.case("sdmf-share-truncation", key=(share, c), nontrivial=True)
 
     sections = [("base32", b32_section), ("base62", b62_section), ("netstring", netstring_section),
@@ -1201,7 +1198,8 @@ def run(ck):
                      "rejects:mutable-header", "lease-out-of-range-refused", "mutable-container-with-extra-leases",
                      "mutation:mutable-header:data-length-capacity-plus-le-468",
                      "exhaustive-insertion:ueb:length", "exhaustive-insertion:ueb:integer-value",
-                     "exhaustive-insertion:netstring:length")
+                     "exhaustive-insertion:netstring:length",
+                     "sdmf-share-roundtrip", "rejects:sdmf-share", "mutation:sdmf-share:truncated-inside-enc_privkey")
     ck.exhaustive = False
     ck.assumptions.append("a decoded value that re-encodes to the mutated bytes is a legitimate reading of those bytes")
     ck.assumptions.append("python is not run with -O: several decoders reject malformed input with assert (counted as observations)")
@@ -1232,3 +1230,6 @@ def run(ck):
 #     data-size field = capacity + 1..468 accepted, readv returns data + extra-lease block)            -> caught
 #     (mutable-data-length-beyond-container-reads-lease-area; data-size set to capacity + d for d around 468, containers
 #     with up to 9 leases so that lease records lie behind the data)
+# 13. seeded/C38-9 (mutable/layout.unpack_share completeness check against o['enc_privkey'] instead of o['EOF']: an SDMF
+#     share cut inside its last field is sliced into a shorter enc_privkey instead of NeedMoreDataError)   -> caught
+#     (sdmf-share-truncated-inside-enc_privkey-accepted; cut points at both ends of and inside every field)
